@@ -16,12 +16,16 @@ package sim
 
 import (
 	"fmt"
+	"io"
 	"os"
 	"path/filepath"
 	"strings"
 	"syscall"
 	"time"
 )
+
+// straceLog is the worker's own descriptor of the strace log.
+var straceLog *os.File
 
 type c05TraceOp struct {
 	name          string
@@ -38,9 +42,18 @@ func cloneModel(m *ServerModel) *ServerModel {
 
 func runC05Trace(m *Sim) {
 	tracePath := os.Getenv("VERIF_STRACE_FILE")
+	// The log has no name from the first run on (strace writes through the
+	// descriptor it holds, the worker reads through its own): nothing is left
+	// behind however the two processes end.
+	if straceLog == nil {
+		f, err := os.OpenFile(tracePath, os.O_RDWR, 0)
+		must(err)
+		straceLog = f
+		os.Remove(tracePath)
+	}
 	// Drop what earlier runs of this process left in the log: strace keeps its
 	// own file offset, so the file becomes sparse and only this run has data.
-	must(os.Truncate(tracePath, 0))
+	must(straceLog.Truncate(0))
 
 	w := NewWorld(m)
 	defer w.Shutdown()
@@ -108,13 +121,11 @@ func runC05Trace(m *Sim) {
 	do("close", h.N.Stop)
 
 	// ---- the trace of this run ---------------------------------------------------
-	f, err := os.Open(tracePath)
-	must(err)
-	if off, err := syscall.Seek(int(f.Fd()), 0, 3 /* SEEK_DATA */); err == nil && off > 0 {
-		f.Seek(off, 0)
+	var dataOff int64
+	if off, err := syscall.Seek(int(straceLog.Fd()), 0, 3 /* SEEK_DATA */); err == nil && off > 0 {
+		dataOff = off
 	}
-	fsops, perr := ParseStrace(f, h.N.Dir, markDir)
-	f.Close()
+	fsops, perr := ParseStrace(io.NewSectionReader(straceLog, dataOff, 1<<62), h.N.Dir, markDir)
 	if perr != nil {
 		panic("harness: " + perr.Error())
 	}
